@@ -14,7 +14,9 @@ if [ -n "${VERIF_REPO:-}" ]; then
   sed "s#=> /repo#=> ${VERIF_REPO}#" go.mod > "$OUT/go.alt.mod"
   cp go.sum "$OUT/go.alt.sum"
   MODFLAG="-modfile=$OUT/go.alt.mod"
-  [ -f "$OUT/KNOWN_FINDINGS.txt" ] || cp KNOWN_FINDINGS.txt "$OUT/KNOWN_FINDINGS.txt"
+fi
+if [ "$OUT" != "$(pwd)" ]; then
+  cp KNOWN_FINDINGS.txt "$OUT/KNOWN_FINDINGS.txt"
 fi
 build() {
   # always rebuilds from the repository's current working tree (go build caches unchanged packages)
